@@ -107,6 +107,7 @@ package reporting
 //@   assigns r.lineCache[all], r.pass.$reports
 //@   ensures reporterOK(r) && r.pass == old(r.pass) && r.ignoreSet == old(r.ignoreSet)
 //@   ensures len(r.pass.$reports) == old(len(r.pass.$reports)) + shown(r.ignoreSet, violations, len(violations))
+//@   ensures len(r.pass.$reports) >= old(len(r.pass.$reports)) && (len(violations) == 0 ==> len(r.pass.$reports) == old(len(r.pass.$reports)))
 //@   ensures forall k int :: 0 <= k && k < old(len(r.pass.$reports)) ==> r.pass.$reports[k] == old(r.pass.$reports)[k]
 //@   loop 1 invariant reporterOK(r) && r.pass == old(r.pass) && r.ignoreSet == old(r.ignoreSet)
 //@   loop 1 invariant 0 <= shown(r.ignoreSet, violations, $i)
